@@ -115,6 +115,9 @@ def _complete_one(var, kind, data, env):
         elif kind == 'arcsin':
             v = ir.evaluate([data], env)[0]
             env[var.val] = math.asin(min(1.0, max(-1.0, v)))
+        elif kind == 'expit':
+            v = ir.evaluate([data], env)[0]
+            env[var.val] = 1.0 / (1.0 + math.exp(-v))
         elif kind == 'recip':
             v = ir.evaluate([data], env)[0]
             env[var.val] = 1.0 / v if v != 0 else 0.0
